@@ -573,8 +573,9 @@ class Canonicalizer:
         if new.args.kwarg:
             params.add(new.args.kwarg.arg)
         stores: Dict[str, List[ast.AST]] = {}
+        bare = {id(n.target) for n in _walk_no_nested(new) if isinstance(n, ast.AnnAssign) and n.value is None}
         for n in _walk_no_nested(new):
-            if isinstance(n, ast.Name) and isinstance(n.ctx, (ast.Store, ast.Del)):
+            if isinstance(n, ast.Name) and isinstance(n.ctx, (ast.Store, ast.Del)) and id(n) not in bare:
                 stores.setdefault(n.id, []).append(n)
             elif isinstance(n, ast.Global):
                 for nm in n.names:
